@@ -135,6 +135,19 @@ struct State {
     texts: Vec<String>,
     /// what `resp` cases answer to USE
     fixed_reply: Option<(String, String)>,
+    /// what the node does with the next accepted connections (then: shard by source port)
+    script: Vec<AcceptRule>,
+    accepted: usize,
+    /// shards the node currently reports (None = not sharded)
+    cur_n: Option<u16>,
+}
+
+#[derive(Clone, Copy, Debug, PartialEq)]
+enum AcceptRule {
+    /// accept and close at once: the driver's `open_connection` fails
+    Refuse,
+    /// report this shard of this many shards, whatever the source port
+    Place(u16, u16),
 }
 
 struct Node {
@@ -168,9 +181,13 @@ enum Reply {
 
 impl Node {
     async fn start(shards: Option<u16>) -> Node {
+        Self::start_scripted(shards, vec![]).await
+    }
+
+    async fn start_scripted(shards: Option<u16>, script: Vec<AcceptRule>) -> Node {
         let listener = TcpListener::bind("127.0.0.1:0").await.unwrap();
         let addr = listener.local_addr().unwrap();
-        let st: Arc<Mutex<State>> = Arc::new(Mutex::new(State::default()));
+        let st: Arc<Mutex<State>> = Arc::new(Mutex::new(State { script, cur_n: shards, ..State::default() }));
         let clock = Arc::new(AtomicU64::new(1));
         let (st2, clock2) = (Arc::clone(&st), Arc::clone(&clock));
         let task = tokio::spawn(async move {
@@ -186,8 +203,27 @@ impl Node {
                 // TIME_WAIT (ephemeral ports would run out)
                 #[allow(deprecated)]
                 let _ = sock.set_linger(Some(Duration::ZERO));
-                let shard = shards.map(|n| (peer.port() % n, n, 12u8));
                 let kill = Arc::new(Notify::new());
+                let rule = {
+                    let mut s = st2.lock().unwrap();
+                    let k = s.accepted;
+                    s.accepted += 1;
+                    s.script.get(k).copied()
+                };
+                if rule == Some(AcceptRule::Refuse) {
+                    drop(sock);
+                    continue;
+                }
+                let shard = {
+                    let mut s = st2.lock().unwrap();
+                    match rule {
+                        Some(AcceptRule::Place(sh, nr)) => {
+                            s.cur_n = Some(nr);
+                            Some((sh, nr, 12u8))
+                        }
+                        _ => s.cur_n.map(|n| (peer.port() % n, n, 12u8)),
+                    }
+                };
                 let conn = {
                     let mut s = st2.lock().unwrap();
                     let held = s.hold_new;
@@ -324,13 +360,13 @@ impl Node {
     /// The node resets every connection (so that neither side lingers in TIME_WAIT) and stops accepting.
     /// The same node on its own OS thread with its own current-thread runtime, so that the driver under
     /// test and the scripted node do not share a scheduler.
-    fn start_on_own_thread(shards: Option<u16>) -> Node {
+    fn start_on_own_thread(shards: Option<u16>, script: Vec<AcceptRule>) -> Node {
         let (tx, rx) = std::sync::mpsc::channel();
         let (stop_tx, stop_rx) = tokio::sync::oneshot::channel::<()>();
         let th = std::thread::spawn(move || {
             let rt = tokio::runtime::Builder::new_current_thread().enable_all().build().unwrap();
             rt.block_on(async move {
-                let node = Node::start(shards).await;
+                let node = Node::start_scripted(shards, script).await;
                 tx.send((node.addr, Arc::clone(&node.st), Arc::clone(&node.clock))).unwrap();
                 let _ = stop_rx.await;
                 node.close_all().await;
@@ -764,9 +800,10 @@ fn judge(node: &Node, names: &[(String, bool)], init: Option<usize>, calls: &[Us
     }
 }
 
-async fn wait_full(pool: &VerifPool, node: &Node, total: usize, limit_ms: u64) -> String {
+async fn wait_full(pool: &VerifPool, node: &Node, total: &dyn Fn(&Node) -> usize, limit_ms: u64) -> String {
     let t0 = std::time::Instant::now();
     loop {
+        let total = total(node);
         let count = pool.connection_count();
         if node.live_count() == total && count == Ok(total) {
             return format!("w{}", total);
@@ -784,9 +821,31 @@ async fn wait_full(pool: &VerifPool, node: &Node, total: usize, limit_ms: u64) -
 async fn run_pool(w: &[&str], race: bool, progress: &Mutex<String>, peek: &Mutex<Option<Arc<Mutex<State>>>>, ctx: &mut Ctx) -> Option<String> {
     let mode = w.get(1)?;
     let sharded = mode.starts_with('S');
-    let n: u16 = mode.get(1..)?.parse().ok()?;
+    let (base, script_field) = match mode.split_once('@') {
+        Some((b, sc)) => (b, Some(sc)),
+        None => (*mode, None),
+    };
+    let n: u16 = base.get(1..)?.parse().ok()?;
     if n == 0 || n > 8 || !(sharded || mode.starts_with('H')) {
         return None;
+    }
+    let mut node_script: Vec<AcceptRule> = Vec::new();
+    if let Some(sc) = script_field {
+        if !sharded {
+            return None;
+        }
+        for e in sc.split('.') {
+            if e == "x" {
+                node_script.push(AcceptRule::Refuse);
+            } else {
+                let (a, b) = e.split_once('/')?;
+                let (sh, nr): (u16, u16) = (a.parse().ok()?, b.parse().ok()?);
+                if sh >= nr || nr > 8 {
+                    return None;
+                }
+                node_script.push(AcceptRule::Place(sh, nr));
+            }
+        }
     }
     let names = parse_names(w.get(3)?)?;
     let init: Option<usize> = if w[2] == "-" { None } else { Some(w[2].parse().ok()?) };
@@ -794,9 +853,9 @@ async fn run_pool(w: &[&str], race: bool, progress: &Mutex<String>, peek: &Mutex
         return None;
     }
     let node = if race && std::env::var_os("C20_NODE_SAME_RUNTIME").is_none() {
-        Node::start_on_own_thread(if sharded { Some(n) } else { None })
+        Node::start_on_own_thread(if sharded { Some(n) } else { None }, node_script)
     } else {
-        Node::start(if sharded { Some(n) } else { None }).await
+        Node::start_scripted(if sharded { Some(n) } else { None }, node_script).await
     };
     *peek.lock().unwrap() = Some(Arc::clone(&node.st));
     let size = if sharded {
@@ -804,7 +863,8 @@ async fn run_pool(w: &[&str], race: bool, progress: &Mutex<String>, peek: &Mutex
     } else {
         scylla::client::PoolSize::PerHost(NonZeroUsize::new(n as usize).unwrap())
     };
-    let total = n as usize;
+    // connections of a full pool: PerHost(n), or one per shard the node currently reports
+    let total = |node: &Node| -> usize { if sharded { node.st.lock().unwrap().cur_n.unwrap_or(n) as usize } else { n as usize } };
     let pool = Arc::new(VerifPool::new(node.addr, size, init.map(|i| (names[i].0.as_str(), names[i].1)), true, None).ok()?);
     pool.wait_until_initialized().await;
     let mut out: Vec<String> = Vec::new();
@@ -875,6 +935,23 @@ async fn run_pool(w: &[&str], race: bool, progress: &Mutex<String>, peek: &Mutex
                     _ => "q!".to_owned(),
                 });
             }
+            "Y" => {
+                // a user statement `USE names[i]` written on the connection of shard s (what Session::query does
+                // before it calls use_keyspace itself)
+                let (i, sh) = arg.split_once(',')?;
+                let i: usize = i.parse().ok()?;
+                let sh: u32 = sh.parse().ok()?;
+                let (name, cs) = names.get(i)?;
+                if !spec_valid(name) || !sharded {
+                    return None;
+                }
+                let start = node.tick();
+                let r = pool.query_on_shard(sh, &spec_statement(name, *cs)).await;
+                let end = node.tick();
+                // for the oracle this is a keyspace change that started and did not (yet) return Ok
+                calls.push(UseCall { idx: i, start, end, ok: false });
+                out.push(if matches!(r, Ok((_, true))) { "y".into() } else { "y!".into() });
+            }
             "K" => {
                 let s: u16 = arg.parse().ok()?;
                 let victim = {
@@ -893,7 +970,7 @@ async fn run_pool(w: &[&str], race: bool, progress: &Mutex<String>, peek: &Mutex
                     None => out.push("k-".into()),
                 }
             }
-            "W" => out.push(wait_full(&pool, &node, total, 1500).await),
+            "W" => out.push(wait_full(&pool, &node, &total, 1500).await),
             "Z" => tokio::time::sleep(Duration::from_millis(arg.parse().ok()?)).await,
             "R" | "M" | "V" | "P" | "C" => {
                 let (i, s) = arg.split_once(',')?;
